@@ -19,8 +19,8 @@ def decAllStr (P : String → Prop) [DecidablePred P] : (v : Val) → Decidable 
   | .seq xs => by simp only [AllStr]; exact decAllStrL P xs
   | .map kvs => by simp only [AllStr]; exact decAllStrKV P kvs
   | .null => .isTrue (by simp [AllStr])
-  | .bool _ => .isTrue (by simp [AllStr])
-  | .int _ => .isTrue (by simp [AllStr])
+  | .bool b => by simp only [AllStr]; infer_instance
+  | .int i => by simp only [AllStr]; infer_instance
 def decAllStrL (P : String → Prop) [DecidablePred P] : (xs : List Val) → Decidable (AllStrL P xs)
   | [] => .isTrue (by simp [AllStrL])
   | x :: xs => by
@@ -103,7 +103,7 @@ theorem w_loads_prefix : loadPre wEnv "proj" wDict = .ok wProj := by rfl
 
 theorem w_model_clean : Clean canary (.map wDict) := by decide
 
-theorem w_vocab : VocabOk (fun s => ¬ occurs canary s) := ⟨by decide, by decide⟩
+theorem w_vocab : VocabOk (fun s => ¬ occurs canary s) := ⟨by decide, by decide, cutClosed_not_occurs _⟩
 
 theorem w_names_secrets : GenNamesOk (fun s => ¬ occurs canary s) "proj" "secrets" wDict := by
   intro objs h; simp [wDict, lookup] at h
